@@ -402,11 +402,20 @@ def _scalar_pair(draw, ints_only=False):
         near = lambda d: dict(t="float", v=math.nextafter(    # noqa
             d["v"], math.inf))
     elif kind == "str":
-        g = st.text(alphabet="abcXYZ019\u03b1\u03b2\u00e9\u00fc",
+        # (labels such as 'ZF:SIC', 'MMSE|ZF', 'ML*': characters some file
+        # systems dislike are part of the value like any other)
+        g = st.text(alphabet="abcXYZ019\u03b1\u03b2\u00e9\u00fc:|*?_<>",
                     min_size=1, max_size=8).map(
             lambda v: dict(t="str", v=v))
-        near = lambda d: dict(t="str", v=d["v"][:-1] + (        # noqa
-            "\u03b2" if d["v"][-1] == "\u03b1" else "\u03b1"))
+
+        def near(d):
+            v = d["v"]
+            for i, ch in enumerate(v):
+                if ch in ":|*?<>":
+                    # the same label written with an underscore
+                    return dict(t="str", v=v[:i] + "_" + v[i + 1:])
+            return dict(t="str", v=v[:-1] + (
+                "\u03b2" if v[-1] == "\u03b1" else "\u03b1"))
     else:
         dt = draw(st.sampled_from(("int32", "int64", "int16", "uint64",
                                    "uint8") if ints_only else
